@@ -76,6 +76,14 @@ let () =
       " html=" ^ hex_of_bytes (html_q s) ^ " part=" ^ hex_of_bytes (escape_part s));
   (* lq.record <item>... : one access-log record of a custom logformat *)
   reg "lq.record" (fun items -> "rec " ^ hex_of_bytes (log_record (List.map fitem_of items)));
+  (* lq.record200 <user hex | ~> <item>... : what checks/c34.py observes for one finished transaction: status 200, one
+     record of the custom format on one line, and the number of space-separated fields of the built-in squid format
+     (ten, plus the spaces QuoteUrlEncodeUsername leaves in the user name) *)
+  reg "lq.record200" (fun (u :: items) ->
+      let r = log_record (List.map fitem_of items) in
+      let uq = match username_quote (if u = "~" then None else Some (bytes_of_hex u)) with Some q -> q | None -> [] in
+      "status=200 records=1 nl=" ^ string_of_n (count_lf r) ^ " nat=" ^ string_of_int (10 + int_of_n (count_sub [n_of_int 32] uq)) ^
+      " rec=" ^ hex_of_bytes r);
   (* reference readers (used by corpus regressions) *)
   reg "lq.readq" (fun [v] -> read_res (read_quoted unbackslash (bytes_of_hex v)));
   reg "lq.readb" (fun [v] -> read_res (read_bracketed (bytes_of_hex v)));
